@@ -174,7 +174,10 @@ def _native_index(eng, idx):
             return np.array([bool(eng.branch(eng.truth(x))) for x in idx.items], dtype=bool).reshape(idx.shape)
         if any(isinstance(x, Sym) for x in idx.items):
             raise Unsupported("symbolic index array")
-        return np.array([bool(x) if idx.kind == "bool" else int(x) for x in idx.items]).reshape(idx.shape)
+        # the dtype comes from the KIND of the index array, not from its items: an EMPTY integer array (`ids[mask]` with nothing selected)
+        # would otherwise become numpy's default float64 and the gather `a[empty]` a spurious IndexError ("arrays used as indices must be of integer type")
+        dt = bool if idx.kind == "bool" else (np.intp if idx.kind == "int" else None)
+        return np.array([bool(x) if idx.kind == "bool" else int(x) for x in idx.items], dtype=dt).reshape(idx.shape)
     if isinstance(idx, PList):
         if idx.items is None or any(isinstance(x, Sym) for x in idx.items):
             raise Unsupported("symbolic index list")
@@ -202,6 +205,11 @@ def getitem(eng, a, idx):
         for j in range(n - 2, -1, -1):
             z = z3.If(iz == j, to_z3(items[j], a.kind), z)
         return Sym(z, a.kind)
+    if isinstance(idx, NArr) and idx.kind == "int" and a.ndim == 1 and len(a.items) and any(isinstance(x, Sym) for x in idx.items):
+        # gather through an integer index array with symbolic entries (`ids[ids[mask]]`): element by element, each lookup with the bounds
+        # treatment of a scalar index (an out-of-range entry is the program's IndexError on that path); the result is fresh storage
+        used(eng, "fancy-index-gather-is-fresh")
+        return NArr(idx.shape, [getitem(eng, a, x) for x in idx.items], a.kind, a.dtype)
     ni = _native_index(eng, idx)
     try:
         ix = idx_of(a)[ni]
